@@ -1527,7 +1527,9 @@ func runC15(r *Run) {
 		}
 	}
 	// the bridge
-	msgs := [][]byte{[]byte("m1"), []byte("m2\n"), {}, []byte("\n"), []byte("a\n\n"), []byte("progress 50%\r"), []byte("dos line\r\n"), []byte("\r"), []byte("table:\n\n\n"), []byte("x\xff\x80y\n"), []byte("two\nlines"), []byte(" \t"), []byte("é\n")}
+	msgs := [][]byte{[]byte("m1"), []byte("m2\n"), {}, []byte("\n"), []byte("a\n\n"), []byte("progress 50%\r"), []byte("dos line\r\n"), []byte("\r"), []byte("table:\n\n\n"), []byte("x\xff\x80y\n"), []byte("two\nlines"), []byte(" \t"), []byte("é\n"),
+		// white space other than LF, CR, blank and TAB is a message like any other (also at the Always severity)
+		[]byte("\f"), []byte("\v\n"), []byte("\u00a0"), []byte("\u2003\u2003\n"), []byte("\u0085")}
 	for L := 0; L < 12; L++ {
 		for sev := 0; sev < 12; sev++ {
 			for _, dbg := range []bool{false, true} {
@@ -1541,6 +1543,12 @@ func runC15(r *Run) {
 				}
 				c15Bridge(r, snap, L, sev, dbg, msgs[(L+sev)%len(msgs)], true)
 			}
+		}
+	}
+	for i, m := range msgs[len(msgs)-5:] {
+		for _, L := range []int{8, 6, 4} {
+			c15Bridge(r, snap, L, 8, false, m, i%2 == 0)
+			c15Log(r, snap, L, false, 1, string(m)) // log/slog level INFO+1 is not one of the four standard ones: Always
 		}
 	}
 	// handlers
